@@ -209,9 +209,10 @@ impl BuildSystem {
         if config.should_force() {
             self.logger.verbose("Force flag set, regenerating bindings");
         } else {
-            match GenerationCache::needs_regeneration(
+            match GenerationCache::needs_regeneration_with_events(
                 &config.output_path,
                 &commands,
+                analyzer.get_discovered_events(),
                 discovered_structs,
                 config,
             ) {
@@ -258,7 +259,12 @@ impl BuildSystem {
         }
 
         // Save cache after successful generation
-        let cache = GenerationCache::new(&commands, discovered_structs, config)?;
+        let cache = GenerationCache::new_with_events(
+            &commands,
+            analyzer.get_discovered_events(),
+            discovered_structs,
+            config,
+        )?;
         if let Err(e) = cache.save(&config.output_path) {
             self.logger
                 .warning(&format!("Failed to save generation cache: {}", e));
